@@ -311,7 +311,7 @@ func orchestrate() int {
 						htMu.Unlock()
 						break
 					}
-					r := classifyDeath(cd, prop, seed, tier, lastStart, stderr, code, timedOut)
+					r := classifyDeath(cd, prop, seed, tier, lastStart, stderr, code, timedOut || code == exitHang)
 					agg.add(cd, r)
 					from = lastStart + 1
 				}
@@ -444,6 +444,22 @@ func classifyDeath(cd *CheckDef, prop string, seed uint64, tier string, idx int,
 	if h := deathHandlers[prop]; h != nil {
 		h(r, stderr, code, timedOut)
 	}
+	if timedOut && len(r.Violations) == 0 && runningModelFrame(stderr) == "" {
+		// nothing was executing model code: the released run is blocked on a lock that a parked run holds
+		// (e.g. a cache guarded by a mutex around a pooled-file Get). Quiescence detection cannot see a mutex wait;
+		// the scenario is executed once more at coarse granularity (no parking at pooled-file Gets).
+		var s2 Scenario
+		if sc != nil && json.Unmarshal(sc, &s2) == nil && s2.Sched != nil && !s2.Sched.NoPoolYield {
+			s2.Sched.NoPoolYield = true
+			s2.Sched.Decisions = nil
+			if r2, _ := runOne(cd, &s2, 3*time.Minute); r2 != nil && r2.Status != "crash" {
+				r2.Idx = idx
+				r2.add("fault.coarse-retry-after-lock-wait", 1)
+				r2.Sample = s2.JSON()
+				return r2
+			}
+		}
+	}
 	return r
 }
 
@@ -525,7 +541,7 @@ func runOne(cd *CheckDef, sc *Scenario, timeout time.Duration, extraEnv ...strin
 	if err != nil {
 		r := &Result{Idx: sc.Idx, Status: "crash", Note: fmt.Sprintf("exit %d timeout=%v: %s", code, timedOut, firstLine(lastNonEmpty(stderr)))}
 		if h := deathHandlers[cd.Prop]; h != nil {
-			h(r, stderr, code, timedOut)
+			h(r, stderr, code, timedOut || code == exitHang)
 		}
 		return r, stderr
 	}
